@@ -85,7 +85,10 @@ impl Property for C09 {
             let lang = LANGS[(i % 7) as usize].to_string();
             let v = (i / 7) % 1000;
             let comma = i / 7000 == 1;
-            let sel = ThSel { kind: 0, i: if v % 2 == 0 { 5000 } else { 19000 }, delta: 0 };
+            // thresholds 10 and +inf, addressed by their position in the pool
+            let pos = |x: f64| THRESHOLDS.iter().position(|t| t.to_bits() == x.to_bits()).unwrap_or(0) as u32;
+            let k = if v % 2 == 0 { pos(10.0) } else { pos(f64::INFINITY) };
+            let sel = ThSel { kind: 0, i: ((k * 65536 + 32768) / npool as u32) as u16, delta: 0 };
             if !emit(Case { lang, shape: "seq3".into(), sent: Sentence { lead: String::new(), items: vec![] }, th: vec![sel], digits: vec![(v / 100) as u8, (v / 10 % 10) as u8, (v % 10) as u8], comma }) {
                 return;
             }
